@@ -204,13 +204,61 @@ def run_optimization(case, R):
     base_res = P.run_sim(parset, progset=pset, progset_instructions=instr)
     if u[6] > 0.6:
         other = comps[(int(u[2] * len(comps)) + 1) % len(comps)]
-        hs = {"name": other, "t": [y1], "pops": None}
+        # ... for all populations or (in models with several) for the first one only; generous, or tight enough that a step of
+        # the optimizer can violate it (always on the feasible side of the starting value)
+        hsel = [pops[0]] if (len(pops) >= 2 and (u[6] * 10) % 1 < 0.6) else None
+        tight = (u[6] * 100) % 1 < 0.5
+        hs = {"name": other, "t": [y1], "pops": hsel}
         v = raw_value(base_res, hs)
-        # generous side of the starting value so that the start is feasible
         if u[6] > 0.8:
-            mspecs.append({"type": "atmost", "name": other, "t": [y1], "pops": None, "threshold": v * 1.2 + 1.0})
+            mspecs.append({"type": "atmost", "name": other, "t": [y1], "pops": hsel, "threshold": (v * 1.002 + 1e-6) if tight else (v * 1.2 + 1.0)})
         else:
-            mspecs.append({"type": "atleast", "name": other, "t": [y1], "pops": None, "threshold": v * 0.8 - 1.0})
+            mspecs.append({"type": "atleast", "name": other, "t": [y1], "pops": hsel, "threshold": (v * 0.998 - 1e-6) if tight else (v * 0.8 - 1.0)})
+
+    # ---- every measurable class evaluates exactly the requested output over the requested years and populations ------------
+    # (deterministic probe on the finished baseline run: no optimisation involved)
+    bm = base_res.model
+    for probe_name in ([target] + [comps[0]])[:2]:
+        for psel in [None, [pops[0]], [pops[-1]], list(pops)]:
+            for tsel in ([y1], [y0, y1]):
+                ms = {"name": probe_name, "t": tsel, "pops": psel}
+                try:
+                    v = raw_value(base_res, ms)
+                except Exception:
+                    continue
+                if not np.isfinite(v):
+                    continue
+                tt_ = tsel[0] if len(tsel) == 1 else tsel
+                thr_lo, thr_hi = v - max(1e-6, 1e-3 * abs(v)), v + max(1e-6, 1e-3 * abs(v))
+                probes = [
+                    ("Maximize", lambda: OP.MaximizeMeasurable(probe_name, tt_, pop_names=psel), -v),
+                    ("Minimize", lambda: OP.MinimizeMeasurable(probe_name, tt_, pop_names=psel), v),
+                    ("AtMost[met]", lambda: OP.AtMostMeasurable(probe_name, tt_, thr_hi, pop_names=psel), 0.0),
+                    ("AtMost[violated]", lambda: OP.AtMostMeasurable(probe_name, tt_, thr_lo, pop_names=psel), np.inf),
+                    ("AtLeast[met]", lambda: OP.AtLeastMeasurable(probe_name, tt_, thr_lo, pop_names=psel), 0.0),
+                    ("AtLeast[violated]", lambda: OP.AtLeastMeasurable(probe_name, tt_, thr_hi, pop_names=psel), np.inf),
+                ]
+                if v > 0:
+                    probes += [
+                        ("IncreaseBy[met]", lambda: OP.IncreaseByMeasurable(probe_name, tt_, 0.0, pop_names=psel), 0.0),
+                        ("IncreaseBy[violated]", lambda: OP.IncreaseByMeasurable(probe_name, tt_, 0.001, pop_names=psel), np.inf),
+                        ("DecreaseBy[met]", lambda: OP.DecreaseByMeasurable(probe_name, tt_, 0.0, pop_names=psel), 0.0),
+                        ("DecreaseBy[violated]", lambda: OP.DecreaseByMeasurable(probe_name, tt_, 0.001, pop_names=psel), np.inf),
+                    ]
+                for label, mk, expected in probes:
+                    try:
+                        mo = mk()
+                        got = float(mo.eval(bm, mo.get_baseline(bm)))
+                    except Exception as e:
+                        R.count("measurable_probe_not_applicable[%s,%s]" % (label.split("[")[0], type(e).__name__))
+                        continue
+                    R.count("measurable_probes")
+                    same = (got == expected) or (np.isfinite(expected) and abs(got - expected) <= 1e-9 * max(1.0, abs(expected)))
+                    if not same:
+                        psk = "all" if psel is None else ("subset" if len(psel) < len(pops) else "all-listed")
+                        R.bad("objective=documented-sum", "C15:measurable-evaluates-something-else[%s,pops=%s,%s]" % (label, psk, "year" if len(tsel) == 1 else "range"), {"measurable": label, "output": probe_name, "pops": psel, "t": tsel, "got": got, "expected": expected, "value_over_requested_pops": v})
+                    else:
+                        R.ok("objective=documented-sum")
 
     def make_measurables():
         out = []
